@@ -279,3 +279,91 @@ def mon_c13(sc, controller, outcome):
     if exp is None and outcome.startswith("failed SimulationError bad-reply"):
         vio.append({"law": "a valid reply was rejected", "fault": f, "outcome": outcome})
     return vio
+
+
+# ------------------------------------------------------------------ C03: data-flow fidelity
+
+def c03_class(sc):
+    """Known-finding class of a scenario for the data-flow property, or None for the clean class."""
+    sims = sc["sims"]
+    grouped = any(s["group"] for s in sims)
+    for c in sc["connects"]:
+        pers = is_persistent(sims[c["src"]]["type"], c["sattr"])
+        trig = is_trigger(sims[c["dst"]]["type"], c["dattr"])
+        if not pers and c["init"]:
+            return "C03-event-with-init"
+    if sc.get("future_outputs"):
+        return "C03-nonmonotone-output-times"
+    if sc["cache"]:
+        pers_conns = [c for c in sc["connects"] if is_persistent(sims[c["src"]]["type"], c["sattr"])]
+        if any(c["ts"] >= 1 for c in pers_conns):
+            return "C03-cache-prune-shift"
+        if any(c["init"] for c in pers_conns):
+            return "C03-cache-initial-data"
+    if grouped and any(c["weak"] for c in sc["connects"]):
+        return "C03-subtier-blind"
+    if sc.get("sparse_persistent"):
+        return "C03-sparse-persistent"      # not a finding: the API says persistent outputs are always produced
+    return None
+
+
+def mon_c03(sc, controller):
+    """Expected inputs of every step, recomputed from the history of get_data replies."""
+    vio = []
+    sims = sc["sims"]
+    n = len(sims)
+    produced = {}       # (src, seid, sattr) -> list of (out_tt, order, value)
+    order = 0
+    last_begin = {i: None for i in range(n)}
+    delivered = set()   # (conn index, production order) of delivered events
+    for idx, e in enumerate(controller.full_trace):
+        if e[0] == "got":
+            i, t, d = sid_i(e[1]), tuple(e[2]), e[3]
+            ot = d.get("time", t[0])
+            out_tt = t if ot == t[0] else (ot,) + (0,) * (len(t) - 1)
+            for eid, attrs in d.items():
+                if eid == "time":
+                    continue
+                for a, v in attrs.items():
+                    order += 1
+                    produced.setdefault((i, int(eid), ATTRS.index(a)), []).append((out_tt, order, v))
+        elif e[0] == "begin":
+            i, t, inputs = sid_i(e[1]), tuple(e[2]), e[3]
+            got = {}
+            for eid, attrs in inputs.items():
+                for attr, srcs in attrs.items():
+                    for src, val in srcs.items():
+                        ssid, seid = src.split(".", 1)
+                        got[(int(eid), ATTRS.index(attr), int(ssid[1:]), int(seid))] = val
+            want = {}
+            for ci, c in enumerate(sc["connects"]):
+                if c["dst"] != i:
+                    continue
+                key = (c["deid"], c["dattr"], c["src"], c["seid"])
+                d = conn_delay(sc, c)
+                hist = produced.get((c["src"], c["seid"], c["sattr"]), [])
+                due = [(act(o, d), k, v) for (o, k, v) in hist if act(o, d) <= t]
+                if is_persistent(sims[c["src"]]["type"], c["sattr"]):
+                    if due:
+                        want[key] = max(due)[2]
+                    elif c["init"]:
+                        want[key] = 900000 + ci
+                    else:
+                        want[key] = None
+                else:
+                    fresh = [(a, k, v) for (a, k, v) in due if (ci, k) not in delivered]
+                    if fresh:
+                        want[key] = max(fresh)[2]
+                        for (_, k, _) in fresh:
+                            delivered.add((ci, k))
+            # values from set_data are not part of this property's expectation (C16): ignore keys no connection explains
+            conn_keys = {(c["deid"], c["dattr"], c["src"], c["seid"]) for c in sc["connects"] if c["dst"] == i}
+            got_c = {k: v for k, v in got.items() if k in conn_keys}
+            if got_c != want:
+                missing = {k: v for k, v in want.items() if k not in got_c}
+                wrong = {k: (got_c[k], want[k]) for k in want if k in got_c and got_c[k] != want[k]}
+                extra = {k: v for k, v in got_c.items() if k not in want}
+                vio.append({"law": "step inputs = most recent due persistent values + each due event exactly once", "sim": i, "t": t,
+                            "missing": str(missing), "wrong(got,want)": str(wrong), "unexpected": str(extra), "event": idx})
+            last_begin[i] = t
+    return vio
